@@ -125,8 +125,35 @@ fn split(sym_stake: bool) {
     witness("end");
 }
 
+/// found missing by seed C15b: a partial undelegation matures (block update), more time passes, and the
+/// delegator then withdraws — the payout must be what was shown and the bounds must still hold
+fn partial_unbonding_then_withdraw() {
+    let mut w = Stk::new(Cfg::default());
+    w.track_rewards = true;
+    w.fixed_amounts.push_back(STAKES_1[choose(3)] + 1);
+    w.fixed_amounts.push_back(STAKES_2[choose(2)]);
+    setup_positions(&mut w, &[Op::Delegate { d: 0, v: 0 }, Op::Delegate { d: 1, v: 0 }]);
+    w.fixed_amounts.push_back(1);
+    for op in [
+        Op::Advance { dt: DtSel::Sym(1, 400 * 86_400) },
+        Op::Undelegate { d: 0, v: 0 },
+        Op::Advance { dt: DtSel::Fixed(61) },
+        Op::Advance { dt: DtSel::Sym(1, 400 * 86_400) },
+        Op::Withdraw { d: 0, v: 0 },
+        Op::Withdraw { d: 1, v: 0 },
+    ] {
+        if !w.apply(&op, AMT) {
+            return;
+        }
+        w.check_reward_bounds("", false);
+        w.check_balances("");
+    }
+    witness("end");
+}
+
 pub fn scenarios(tier: &str) -> Vec<Scenario> {
     let mut v = vec![];
+    v.push(Scenario::new("partial_unbonding_matures_then_withdraw", &["withdraw_ok", "unbonding_paid", "end"], partial_unbonding_then_withdraw));
     v.push(Scenario::new("accrual_single_delegator_symbolic_stake_len2", &["withdraw_ok", "end"], || {
         accrual(2, Mode::SingleSymbolicStake, false)
     }));
